@@ -176,7 +176,9 @@ def rebuildWith (segMax0 : Int) (s : St) (cid : Nat) (tss : List Int) : St :=
   | some _ =>
     let (store, root, mn, mx) := rebuildIntWith segMax0 s.store tss
     match tss with
-    | [] => { chunks := updChk s.chunks cid (fun c => { c with root := none, corrupted := false, lastRec := 0 }), store := store }
+    | [] =>
+      -- an empty chunk (nothing confirmed yet): `rInfo` stays {0, 0} and `update` merges it into the hull
+      { chunks := updChk s.chunks cid (fun c => { c with root := none, corrupted := false, lastRec := 0, minTs := min c.minTs 0, maxTs := max c.maxTs 0 }), store := store }
     | _ =>
       match root with
       | none => { chunks := updChk s.chunks cid (fun c => { c with root := none, corrupted := true }), store := store }
